@@ -759,6 +759,16 @@ func (c *Connection) write(ctx context.Context, msg Message) error {
 		if req, ok := msg.(*Request); ok && !req.IsCall() && s.outgoingNotifications > 0 {
 			return
 		}
+		// Allow responses while the write side works: the incoming call being
+		// answered keeps the connection from becoming idle, so the stream is
+		// still open. Close waits for in-flight handlers, and answers calls that
+		// arrive meanwhile with ErrServerClosing; refusing to write those
+		// responses would leave the peer's calls unanswered, and a peer whose
+		// handler is waiting for such an answer could never complete the call
+		// that Close is itself waiting for.
+		if _, ok := msg.(*Response); ok && s.writeErr == nil {
+			return
+		}
 		err = s.shuttingDown(ErrServerClosing)
 	})
 	if err != nil {
